@@ -79,6 +79,14 @@ func propGen(prop, tier string, idx int) GenOpts {
 		o.WLife = [3]int{3, 3, 6}
 		o.PMulti, o.PResult = 150, 150
 		o.PParamObj, o.POptionalReg = 550, 350
+		if idx%4 == 3 {
+			// constructors failing at the k-th invocation, also behind optional fields: whatever a
+			// failure does to the consumer, no transient instance may be handed out a second time
+			o.FaultBudget = [4]int{1, 5, 4, 0}
+			o.WFault = [4]int{4, 3, 1, 0}
+			o.NoOptionalFail = false
+			o.MaxOps = 10
+		}
 		conc(1, 2)
 		if seq {
 			conc(1, 1)
